@@ -34,7 +34,8 @@ Prefixed == {"ku1", "ka", "ku3"}      \* materialised through the prefix definit
 
 Probes == {Single("a", One), Single("b", One), Single("n", One), Single("u1", One), Single("u2", One),
            Single("u3", One), Single("q", R(2)), Single("q", One), Single("a", R(2)), Single("u1", R(-1)),
-           Single("ku1", One), Single("ka", R(2)), Mul(Single("ku3", One), Single("u3", R(-1))),
+           Single("ku1", One), Single("ka", R(2)), Single("u1", R(-2)), Single("ku1", R(-1)), Single("ku1", R(-2)),
+           Single("a", R(-1)), Single("a", R(-2)), Single("ka", R(-1)), Single("ka", R(-2)), Mul(Single("ku3", One), Single("u3", R(-1))),
            Mul(Single("a", One), Single("b", R(-1))), Mul(Single("u2", One), Single("b", One)),
            Mul(Single("u3", One), Single("u1", R(-1))), Mul(Single("u2", <<1, 2>>), Single("b", <<1, 2>>)),
            Single("[C]", One), Single("[H]", R(2)), Single("[H]", One), Single("[C]", R(2)), Single("[C]", R(-1)),
